@@ -81,10 +81,16 @@ func (s *Supervisor) checkScan(rec *ScanRecord) {
 		gs.A = a
 		a.KnownStart = gs.KnownAtList
 		a.KnownEnd = knownAfter(gs)
+		if gs.KnownAmbiguous {
+			a.KnownEnd.Valid = false
+			a.Clean, a.CleanUp, a.CleanTaint = false, false, false
+			st.Probe("group judged without a known cloud state (ambiguous since a describe outside Refresh)")
+		}
 		lm := s.lock[g.Name]
 		if lm != nil && lm.Armed && gs.NodesListed {
 			a.LockKnown = true
-			a.Locked = gs.TList.Sub(lm.At) < g.CoolDown
+			a.LockedStrict = gs.TList.Sub(lm.At) < g.CoolDown
+			a.Locked = a.LockedStrict || !lm.AtMax.IsZero() && gs.TList.Sub(lm.AtMax) < g.CoolDown
 		} else {
 			a.LockKnown = true
 		}
@@ -123,7 +129,11 @@ func (s *Supervisor) checkScan(rec *ScanRecord) {
 				if lm != nil && lm.Armed && at.Sub(lm.At) < g.CoolDown {
 					st.Probe("lock-rearmed-while-armed")
 				}
-				s.lock[g.Name] = &lockModel{Armed: true, At: at, Amount: amt}
+				atMax := gs.TLeave
+				if atMax.Before(at) {
+					atMax = at
+				}
+				s.lock[g.Name] = &lockModel{Armed: true, At: at, AtMax: atMax, Amount: amt}
 				st.Probe("lock-armed")
 			}
 		}
@@ -336,7 +346,7 @@ func (x *scanCtx) c01() {
 func (x *scanCtx) c02() {
 	a, gs, g := x.a, x.gs, x.g
 	lm := x.s.lock[g.Name]
-	if a.Locked {
+	if a.LockedStrict {
 		x.check("c02-locked")
 		for _, c := range a.Writes {
 			site := "other"
@@ -485,18 +495,18 @@ func (x *scanCtx) c03() {
 	if a.Kind == kListErr {
 		return
 	}
-	if a.TaintOK > 0 {
+	if a.TaintPutOK > 0 {
 		x.check("c03-taint")
-		if a.U-a.TaintOK < gs.MinEff {
-			x.viol("C03", "c03-taint-below-min", "", "", fmt.Sprintf("%d untainted nodes in view, %d tainted by this scan, min_nodes %d", a.U, a.TaintOK, gs.MinEff), putsOf(a, "taint")...)
+		if a.U-a.TaintPutOK < gs.MinEff {
+			x.viol("C03", "c03-taint-below-min", "", "", fmt.Sprintf("%d untainted nodes in view, %d tainted by this scan, min_nodes %d", a.U, a.TaintPutOK, gs.MinEff), putsOf(a, "taint")...)
 		}
 	}
 	if a.Kind == kBelowMin {
 		x.check("c03-below-min")
 		x.s.stats.Probe("untainted<min within bounds")
 		for _, at := range a.Attempts {
-			if at.Kind == "taint" {
-				x.viol("C03", "c03-taint-when-below-min", "", "", fmt.Sprintf("only %d untainted nodes (min %d) yet a taint was attempted on %s", a.U, gs.MinEff, at.Node), at.Get)
+			if at.Kind == "taint" && at.Put != nil {
+				x.viol("C03", "c03-taint-when-below-min", "", "", fmt.Sprintf("only %d untainted nodes (min %d) yet a taint was attempted on %s", a.U, gs.MinEff, at.Node), at.first(), at.Put)
 				break
 			}
 		}
@@ -686,9 +696,13 @@ func (x *scanCtx) admissibleNeeds() []int64 {
 			need = 0
 		}
 		out := []int64{need, need + 1}
-		if nt := nStarTol(a.ReqCPU, a.ReqMem, a.SizeCPU, a.SizeMem, g.ScaleUp) - int64(a.U); nt >= 0 && nt < need {
-			out = append([]int64{nt}, out...) // within the float tolerance of an integral need
+		// within the float tolerance of an integral need, or with sub-unit quantities rounded down
+		for nt := nStarTol(a.ReqCPULo, a.ReqMemLo, a.SizeCPU, a.SizeMem, g.ScaleUp) - int64(a.U); nt < need; nt++ {
+			if nt >= 0 {
+				out = append(out, nt)
+			}
 		}
+		sort.Slice(out, func(i, j int) bool { return out[i] < out[j] })
 		return out
 	case kFromZero:
 		m := x.s.mem[g.Name]
@@ -700,9 +714,12 @@ func (x *scanCtx) admissibleNeeds() []int64 {
 		}
 		n := nStar(a.ReqCPU, a.ReqMem, m.CPU, m.Mem, g.ScaleUp)
 		out := []int64{n, n + 1}
-		if nt := nStarTol(a.ReqCPU, a.ReqMem, m.CPU, m.Mem, g.ScaleUp); nt >= 0 && nt < n {
-			out = append([]int64{nt}, out...)
+		for nt := nStarTol(a.ReqCPULo, a.ReqMemLo, m.CPU, m.Mem, g.ScaleUp); nt < n; nt++ {
+			if nt >= 0 {
+				out = append(out, nt)
+			}
 		}
+		sort.Slice(out, func(i, j int) bool { return out[i] < out[j] })
 		return out
 	}
 	return nil
@@ -784,7 +801,7 @@ func (x *scanCtx) c05() {
 	}
 	x.check("c05")
 	n := nStar(a.ReqCPU, a.ReqMem, cCPU, cMem, g.ScaleUp)
-	nTol := nStarTol(a.ReqCPU, a.ReqMem, cCPU, cMem, g.ScaleUp)
+	nTol := nStarTol(a.ReqCPULo, a.ReqMemLo, cCPU, cMem, g.ScaleUp)
 	S := int64(a.U) + int64(a.UntaintOK) + a.Requested
 	k := a.KnownEnd
 	if len(a.Increase) > 0 && a.Increase[0].Known != nil {
@@ -821,19 +838,24 @@ func (x *scanCtx) c06() {
 		return
 	}
 	trigger := a.StarveMay || a.AgeMay
+	// a node found already tainted (stale view) may or may not be counted by the code as one of "its" taints
+	clean := a.Clean && !a.NoopTaint
 	taintAttempts, untaintAttempts := 0, 0
 	var firstTaint, firstUntaint *Call
 	for _, at := range a.Attempts {
+		if at.Put == nil {
+			continue // a read is not an action
+		}
 		if at.Kind == "taint" {
 			taintAttempts++
 			if firstTaint == nil {
-				firstTaint = at.Get
+				firstTaint = at.first()
 			}
 		}
 		if at.Kind == "untaint" {
 			untaintAttempts++
 			if firstUntaint == nil {
-				firstUntaint = at.Get
+				firstUntaint = at.first()
 			}
 		}
 	}
@@ -867,14 +889,14 @@ func (x *scanCtx) c06() {
 	if addsCapacity && taintAttempts > 0 {
 		x.viol("C06", "c06-trigger-tainted", "", site, "the same scan both added capacity and tainted", firstTaint, firstUntaint)
 	}
-	if !a.Clean && a.CleanTaint && !trigger && !addsCapacity {
+	if !clean && a.CleanTaint && !trigger && !addsCapacity {
 		// faults confined to the reap phase: the band still prescribes the exact taint count
 		if exp, strict := x.expectedTaints(); strict && exp > 0 && a.TaintOK != exp {
 			x.check("c06-count")
 			x.viol("C06", "c06-wrong-count", "reap-phase-fault", site, fmt.Sprintf("u=%s%% bands=%v: expected %d taints although a removal call failed in this scan, saw %d", a.UMax.FloatString(6), bandList(a), exp, a.TaintOK), putsOf(a, "taint")...)
 		}
 	}
-	if !a.Clean && a.Kind == kNormal && !trigger && !addsCapacity && !x.rec.Outcome.EndsLifetime() && !preFaulted(x.rec) {
+	if !clean && !a.NoopTaint && a.Kind == kNormal && !trigger && !addsCapacity && !x.rec.Outcome.EndsLifetime() && !preFaulted(x.rec) {
 		// failed taint writes: the band's count is still owed as long as untainted nodes remain to be tried
 		if exp, strict := x.expectedTaints(); strict && exp > 0 && a.TaintOK < exp {
 			for _, n := range a.Untainted {
@@ -886,9 +908,9 @@ func (x *scanCtx) c06() {
 			}
 		}
 	}
-	if !a.Clean {
+	if !clean {
 		// counts become upper bounds
-		if exp, strict := x.expectedTaints(); strict && !trigger && a.TaintOK > exp && !hasAppliedButFailedPut(a) {
+		if exp, strict := x.expectedTaints(); strict && !trigger && a.TaintPutOK > exp && !hasAppliedButFailedPut(a) {
 			x.viol("C06", "c06-wrong-count", "upper-bound", site, fmt.Sprintf("bands=%v prescribe at most %d taints, %d acknowledged", bandList(a), exp, a.TaintOK), putsOf(a, "taint")...)
 		}
 		return
@@ -1050,7 +1072,7 @@ func (x *scanCtx) c07() {
 	if len(a.UntaintAttempted) > 0 {
 		x.check("c07-order")
 		for _, at := range a.Attempts {
-			if at.Kind != "untaint" {
+			if at.Kind != "untaint" || at.Put == nil {
 				continue
 			}
 			y := a.Node[at.Node]
@@ -1059,7 +1081,7 @@ func (x *scanCtx) c07() {
 					continue
 				}
 				if y.CreationTimestamp.Time.Before(xn.CreationTimestamp.Time) {
-					x.viol("C07", "c07-order", "", "", fmt.Sprintf("untainted %s (created %s) while newer tainted node %s (created %s) was not attempted", y.Name, y.CreationTimestamp.UTC().Format(time.RFC3339), xn.Name, xn.CreationTimestamp.UTC().Format(time.RFC3339)), at.Get)
+					x.viol("C07", "c07-order", "", "", fmt.Sprintf("untainted %s (created %s) while newer tainted node %s (created %s) was not attempted", y.Name, y.CreationTimestamp.UTC().Format(time.RFC3339), xn.Name, xn.CreationTimestamp.UTC().Format(time.RFC3339)), at.first())
 					return
 				}
 			}
@@ -1472,12 +1494,13 @@ func (x *scanCtx) c13() {
 		return v, ok && !math.IsNaN(v)
 	}
 	exactF := func(i *big.Int) float64 { f, _ := new(big.Float).SetInt(i).Float64(); return f }
-	for _, p := range [][2]interface{}{{"cpu_request", a.ReqCPU}, {"mem_request", a.ReqMem}, {"cpu_capacity", a.CapCPU}, {"mem_capacity", a.CapMem}} {
+	for _, p := range [][3]interface{}{{"cpu_request", a.ReqCPU, a.ReqCPULo}, {"mem_request", a.ReqMem, a.ReqMemLo}, {"cpu_capacity", a.CapCPU, a.CapCPULo}, {"mem_capacity", a.CapMem, a.CapMemLo}} {
 		name := p[0].(string)
 		if got, ok := get(name); ok {
 			x.check("c13-totals")
 			want := exactF(p[1].(*big.Int))
-			if got != want {
+			// sub-unit quantities: any total between all-rounded-down and all-rounded-up is a correct sum
+			if wantLo := exactF(p[2].(*big.Int)); got < wantLo || got > want {
 				rule := ifs(strings.HasSuffix(name, "request"), "c13-requests", "c13-capacity")
 				x.viol("C13", rule, name, "", fmt.Sprintf("gauge %s = %v, exact total over the view = %v (%d pods, %d untainted nodes)", name, got, want, a.P, a.U))
 				return
@@ -1485,10 +1508,20 @@ func (x *scanCtx) c13() {
 		}
 	}
 	if a.Kind == kNormal {
-		for _, p := range [][2]interface{}{{"cpu_percent", a.UCPU}, {"mem_percent", a.UMem}} {
+		pctLo := func(r, c *big.Int) float64 {
+			if c.Sign() == 0 {
+				return 0
+			}
+			f, _ := new(big.Rat).SetFrac(new(big.Int).Mul(r, big.NewInt(100)), c).Float64()
+			return f
+		}
+		for _, p := range [][4]interface{}{{"cpu_percent", a.UCPU, pctLo(a.ReqCPULo, a.CapCPU), pctLo(a.ReqCPU, a.CapCPULo)}, {"mem_percent", a.UMem, pctLo(a.ReqMemLo, a.CapMem), pctLo(a.ReqMem, a.CapMemLo)}} {
 			if got, ok := get(p[0].(string)); ok {
 				x.check("c13-percent")
 				want, _ := p[1].(*big.Rat).Float64()
+				if a.Fractional && got >= p[2].(float64)*(1-1e-9) && got <= math.Max(want, p[3].(float64))*(1+1e-9) {
+					continue
+				}
 				if math.Abs(got-want) > 1e-9*math.Max(1, math.Abs(want)) {
 					x.viol("C13", "c13-percent", p[0].(string), "", fmt.Sprintf("gauge %s = %v, exact 100*R/C = %v", p[0], got, want))
 					return
@@ -1529,25 +1562,25 @@ func (x *scanCtx) c15() {
 		if c.Op != OpPut && c.Op != OpPatch || c.NodeBody == nil {
 			continue
 		}
+		// Judged by effect, not by how the write was prepared: what the API server held when the write
+		// arrived against what the write puts (or, had no fault hit it, would have put) there. A write whose
+		// resourceVersion precondition does not match is rejected by the server and changes nothing.
+		if c.Stored == nil {
+			continue
+		}
+		if c.NodeBody.ResourceVersion != "" && c.NodeBody.ResourceVersion != c.Stored.ResourceVersion {
+			x.s.stats.Probe("node write over a changed object (rejected by its precondition)")
+			continue
+		}
 		x.check("c15")
 		if c.PrevGet == nil {
-			x.viol("C15", "c15-collateral", "blind-write", "", fmt.Sprintf("PUT %s without a preceding acknowledged GET of that node in this lifetime", c.Target), c)
-			return
+			x.s.stats.Probe("node write without a fresh read")
 		}
-		prev, body := c.PrevGet, c.NodeBody
-		// everything but spec.taints must be what the GET returned
+		prev, body := c.Stored, c.NodeBody
+		// everything but spec.taints must be what was stored
 		p2, b2 := prev.DeepCopy(), body.DeepCopy()
 		p2.Spec.Taints, b2.Spec.Taints = nil, nil
-		if c.Op == OpPatch {
-			b2.ResourceVersion = p2.ResourceVersion // a patch carries no resourceVersion of its own
-			if c.Stored != nil && c.Stored.ResourceVersion != prev.ResourceVersion {
-				// patched over an object that changed since the GET: judge the result against what was stored
-				p2 = c.Stored.DeepCopy()
-				p2.Spec.Taints = nil
-				b2.ResourceVersion = p2.ResourceVersion
-				prev = c.Stored
-			}
-		}
+		b2.ResourceVersion = p2.ResourceVersion
 		p2.TypeMeta = b2.TypeMeta
 		if d := nodeDiff(p2, b2); d != "" {
 			x.viol("C15", "c15-collateral", "fields", "", fmt.Sprintf("PUT %s changes more than the escalator taint: %s", c.Target, d), c)
@@ -1583,9 +1616,9 @@ func (x *scanCtx) c15() {
 				return
 			}
 			sec, err := parseDecimal(t.Value)
-			lo := x.getTimeOf(c)
+			lo := gs.TEnter // "current": not before this group's turn began, not after the write was sent
 			if err != nil || sec < lo.Unix() || sec > c.T0.Unix() {
-				x.viol("C15", "c15-add", "value", "", fmt.Sprintf("taint value %q is not the current Unix time (GET at %d, PUT at %d)", t.Value, lo.Unix(), c.T0.Unix()), c)
+				x.viol("C15", "c15-add", "value", "", fmt.Sprintf("taint value %q is not the current Unix time (the group's turn began at %d, write sent at %d)", t.Value, lo.Unix(), c.T0.Unix()), c)
 				return
 			}
 			if c.Stored != nil && hasTaintKey(c.Stored, escTaint) {
@@ -1604,21 +1637,15 @@ func (x *scanCtx) c15() {
 					return
 				}
 			}
-			x.viol("C15", "c15-collateral", "no-op-put", "", fmt.Sprintf("PUT %s changes nothing", c.Target), c)
-			return
+			x.s.stats.Probe("node write that changes nothing")
 		default:
 			x.viol("C15", ifs(len(be) > len(pe), "c15-add", "c15-remove"), "count", "", fmt.Sprintf("escalator taints before %v after %v", pe, be), c)
 			return
 		}
 	}
-	// no add is issued when the fresh GET already shows the key
 	for _, at := range x.a.Attempts {
-		if at.Kind == "taint" && at.GetOK && at.Present {
+		if at.Kind == "taint" && at.GetOK && at.Present && at.Put == nil {
 			x.s.stats.Probe("taint skipped: fresh GET already shows the taint")
-			if at.Put != nil {
-				x.viol("C15", "c15-restamp", "put-on-present", "", fmt.Sprintf("%s already carried the escalator taint in the fresh GET, yet a PUT followed", at.Node), at.Put)
-				return
-			}
 		}
 	}
 }
@@ -1696,6 +1723,27 @@ func mapsEqual(a, b map[string]string) bool {
 	return true
 }
 
+// identicalRetries: every call but the last failed without effect and all of them ask for the very same
+// thing (the same absolute desired size, or a fleet of the same size). "In one call" rules out reaching
+// the target in steps; it does not rule out repeating a request that was refused.
+func identicalRetries(calls []*Call) bool {
+	for i, c := range calls {
+		if c.Op != calls[0].Op || c.Target != calls[0].Target {
+			return false
+		}
+		if c.Op == OpSetDesired && c.Desired != calls[0].Desired {
+			return false
+		}
+		if c.Op == OpCreateFleet && c.FleetTotal != calls[0].FleetTotal {
+			return false
+		}
+		if i < len(calls)-1 && (c.Err == "" || c.Applied && c.Op == OpCreateFleet) {
+			return false
+		}
+	}
+	return true
+}
+
 // ---- C17 / C18 / C19 (as met in the controller's own call patterns) --------------------
 
 func (x *scanCtx) c17() {
@@ -1723,7 +1771,7 @@ func (x *scanCtx) c17() {
 			}
 		}
 	}
-	if nSet+nFleet > 1 {
+	if nSet+nFleet > 1 && !identicalRetries(a.Increase) {
 		x.viol("C17", "c17-exact", "calls", "", fmt.Sprintf("%d SetDesiredCapacity and %d CreateFleet calls for one scale-up", nSet, nFleet), a.Increase...)
 	}
 	// attach: each acquired instance exactly once, <= 20 per call
@@ -1945,16 +1993,19 @@ func (x *scanCtx) c19Fatal() {
 	if len(batch) == 0 || k.Desired <= k.Min || k.Desired-int64(len(batch)) < k.Min {
 		return
 	}
-	var foreign *v1.Node
-	before := 0
+	// which of several non-members is named, and how many members were terminated before the request reached
+	// it, depends on the order the batch is worked through - which is the code's business
+	foreign := map[string]*v1.Node{}
+	var first *v1.Node
 	for _, n := range batch {
 		if !member(n) {
-			foreign = n
-			break
+			foreign[n.Name] = n
+			if first == nil {
+				first = n
+			}
 		}
-		before++
 	}
-	if foreign == nil {
+	if first == nil {
 		return
 	}
 	// DESIGN 4.3-3: exact outcomes need every call acknowledged, natural refusals included. If the cloud refused
@@ -1966,18 +2017,15 @@ func (x *scanCtx) c19Fatal() {
 	}
 	x.check("c19-fatal")
 	x.s.stats.Probe("reap batch contains a non-member (" + phase + ")")
-	if x.rec.Outcome.NotInGroupNode != foreign.Name {
-		x.viol("C19", "c19-fatal", "", phase, fmt.Sprintf("the %s batch contains %s (%q) which is not a member of the known ASG: RunOnce must stop with the not-in-group error naming it; it ended with err=%q (known desired %d min %d, batch %d)", phase, foreign.Name, foreign.Spec.ProviderID, x.rec.Outcome.Err, k.Desired, k.Min, len(batch)))
+	if _, ok := foreign[x.rec.Outcome.NotInGroupNode]; !ok {
+		x.viol("C19", "c19-fatal", "", phase, fmt.Sprintf("the %s batch contains %s (%q) which is not a member of the known ASG: RunOnce must stop with the not-in-group error naming a non-member; it ended with err=%q (known desired %d min %d, batch %d)", phase, first.Name, first.Spec.ProviderID, x.rec.Outcome.Err, k.Desired, k.Min, len(batch)))
 		return
 	}
-	n := 0
 	for _, c := range a.Terminates {
-		if c.Phase == phase {
-			n++
+		if n, ok := a.ByInst[c.Target]; ok && foreign[n] != nil {
+			x.viol("C19", "c19-fatal", "terminated", phase, fmt.Sprintf("the instance of the non-member %s was submitted for termination", n), c)
+			return
 		}
-	}
-	if n > before {
-		x.viol("C19", "c19-fatal", "continued", phase, fmt.Sprintf("%d terminate calls although the non-member %s is at position %d of the batch", n, foreign.Name, before), a.Terminates...)
 	}
 }
 
@@ -2033,7 +2081,9 @@ func (s *Supervisor) checkOutcome(rec *ScanRecord) {
 			throttles++
 		}
 	}
-	budget := 15*time.Second + inCall + time.Duration(throttles)*3*time.Second
+	// "never hangs": time a scan spends outside calls and outside the documented fleet wait is bounded by a
+	// generous constant (retry pauses and back-off are the code's business; a hang is unbounded)
+	budget := 5*time.Minute + inCall + time.Duration(throttles)*3*time.Second
 	for _, gs := range rec.Groups {
 		for _, c := range gs.Calls {
 			if c.Op == OpCreateFleet {
